@@ -988,34 +988,65 @@ func checkRegistryKeyCanonical(p *core.Prog, r *core.Result, loadModule *ssa.Fun
 			continue
 		}
 		// (b) the empty-name case is replaced by the default before the registry is consulted
-		okNorm := false
-		for _, iff := range emptyTest(f) {
-			bo := iff.Cond.(*ssa.BinOp)
-			base, _ := isNameLoad(bo.X)
-			if base == nil {
-				base, _ = isNameLoad(bo.Y)
-			}
-			if base != arg || !iff.Block().Dominates(ci.Block()) {
-				continue
-			}
-			emptySucc := iff.Block().Succs[0]
-			if bo.Op == token.NEQ {
-				emptySucc = iff.Block().Succs[1]
-			}
-			isFix := func(in ssa.Instruction) bool {
-				st, ok := in.(*ssa.Store)
-				if !ok {
-					return false
+		normalised := func(f *ssa.Function, arg ssa.Value, ci ssa.Instruction) bool {
+			okNorm := false
+			for _, iff := range emptyTest(f) {
+				bo := iff.Cond.(*ssa.BinOp)
+				base, _ := isNameLoad(bo.X)
+				if base == nil {
+					base, _ = isNameLoad(bo.Y)
 				}
-				fa, ok := st.Addr.(*ssa.FieldAddr)
-				if !ok || fa.X != arg || !core.IsField(fa, pkgLabel, "Label", "Name") {
-					return false
+				if base != arg || !iff.Block().Dominates(ci.Block()) {
+					continue
 				}
-				s, ok := core.ConstString(st.Val)
-				return ok && s != "" && (def == "" || s == def)
+				emptySucc := iff.Block().Succs[0]
+				if bo.Op == token.NEQ {
+					emptySucc = iff.Block().Succs[1]
+				}
+				isFix := func(in ssa.Instruction) bool {
+					st, ok := in.(*ssa.Store)
+					if !ok {
+						return false
+					}
+					fa, ok := st.Addr.(*ssa.FieldAddr)
+					if !ok || fa.X != arg || !core.IsField(fa, pkgLabel, "Label", "Name") {
+						return false
+					}
+					s, ok := core.ConstString(st.Val)
+					return ok && s != "" && (def == "" || s == def)
+				}
+				if !core.BlockReachesAvoiding(emptySucc, ci, isFix) {
+					okNorm = true
+				}
 			}
-			if !core.BlockReachesAvoiding(emptySucc, ci, isFix) {
-				okNorm = true
+			return okNorm
+		}
+		okNorm := normalised(f, arg, ci)
+		if !okNorm {
+			// (c) the label comes from a resolving helper (resolveModuleLabel(raw)) every successful return of which
+			// hands out a label normalised in that way
+			var hc *ssa.Call
+			switch x := core.Unwrap(arg).(type) {
+			case *ssa.Extract:
+				hc, _ = x.Tuple.(*ssa.Call)
+			case *ssa.Call:
+				hc = x
+			}
+			if hc != nil {
+				if h := core.Callee(hc); h != nil && core.InModule(h) && h.Blocks != nil {
+					all, some := true, false
+					for _, hr := range core.ReturnsOf(h) {
+						hv := core.RetVals(hr)
+						if len(hv) == 0 || core.IsNilConst(hv[0]) {
+							continue
+						}
+						some = true
+						if !normalised(h, hv[0], hr) {
+							all = false
+						}
+					}
+					okNorm = all && some
+				}
 			}
 		}
 		r.Check(okNorm, "R6.11", construct, p.InstrPos(ci), "an empty file name is replaced by "+def+" before the registry is consulted: the key names the file", "a label with an empty file name reaches the registry as it was written, while fetchModule reads an empty name as "+def+": load(\"//pkg\", …) and the package loader's //pkg:"+def+" are two registry keys for one file, which is executed twice (a package that declares targets then fails to load with 'duplicate target'; module-level code runs twice)")
